@@ -357,6 +357,52 @@ def findings(repo: Repo):
                 "memo-shared",
             )
         )
+    # module-level dicts used as a memo by plain subscripting (sa/memo.py:dict_memo_sites): the stored object is what every later
+    # caller with an equal key receives
+    try:
+        from .memo import dict_memo_sites
+
+        sites = list(dict_memo_sites(repo))
+    except Exception:
+        sites = []
+    done: Set[Tuple[str, str, str]] = set()
+    for fi, st, pool, key in sites:
+        k3 = (fi.module.name, fi.qualname, pool)
+        if k3 in done:
+            continue
+        done.add(k3)
+        name = f"{fi.module.name}.{fi.qualname}"
+        v = sh.annotation(fi.module.name, fi.node.returns)
+        if v[0] == UNK:
+            v = sh.expr(fi, st.value, 0, ((fi.module.name, fi.qualname),))
+        hands_out = any(
+            isinstance(r, ast.Return) and r.value is not None and any(isinstance(n, ast.Name) and n.id == pool for n in ast.walk(r.value)) or (isinstance(r, ast.Return) and isinstance(r.value, ast.Name) and isinstance(st.value, ast.Name) and r.value.id == st.value.id)
+            for r in astq.walk_no_nested(fi.node)
+        )
+        if not hands_out:
+            continue  # the dict is a registry, not a memo of the function's answer
+        if v[0] == IMM:
+            out.append((fi, "ok", f"{name} memoises its answer in the module-level dict `{pool}`: the stored value ({v[1]}) cannot be changed by the callers that share it", f"memo-shared:{pool}"))
+            continue
+        if v[0] == UNK:
+            out.append((fi, "error", f"{name} memoises its answer in the module-level dict `{pool}`: what is stored could not be established ({v[1]}); whether the callers share a mutable object is undecided", f"memo-shared:{pool}"))
+            continue
+        public, edits = sh.exposure(fi)
+        if not public and not edits:
+            out.append((fi, "ok", f"{name} memoises a {v[1]} in `{pool}`: it stays inside the package and no function edits it in place", f"memo-shared:{pool}"))
+            continue
+        others = [p_ for p_ in public if p_ != name]
+        via = (f"it is handed out by {', '.join(sorted(others)[:3])}" if others else "it is returned to code outside the package") if public else ""
+        ed = f"{'; ' if via else ''}{edits[0][0].module.name}.{edits[0][0].qualname} edits it in place (`{norm(edits[0][1])[:60]}`)" if edits else ""
+        out.append(
+            (
+                fi,
+                "violation",
+                f"`{norm(st)[:70]}` keeps the answer of {name}, a mutable {v[1]}, in the module-level dict `{pool}` and later calls with an equal key return that very object; {via}{ed} - "
+                "an edit of the returned object is what the next call with the same input returns, so the output depends on the history of the process, not on the input",
+                f"memo-shared:{pool}",
+            )
+        )
     return out
 
 
